@@ -32,9 +32,19 @@ pub enum Cap {
     TraceId,
     SpanId,
     Kind,
+    /// re-entrant values: the impl the sink calls to encode the value itself emits an event through
+    /// the same runtime (and therefore the same sink) on the caller thread
+    NoisyDisplay,
+    NoisyDebug,
+    NoisySerde,
+    NoisySval,
 }
 
 impl Cap {
+    pub fn is_noisy(self) -> bool {
+        matches!(self, Cap::NoisyDisplay | Cap::NoisyDebug | Cap::NoisySerde | Cap::NoisySval)
+    }
+
     pub fn name(self) -> &'static str {
         match self {
             Cap::Typed => "typed",
@@ -49,6 +59,10 @@ impl Cap {
             Cap::TraceId => "trace-id",
             Cap::SpanId => "span-id",
             Cap::Kind => "kind",
+            Cap::NoisyDisplay => "noisy-display",
+            Cap::NoisyDebug => "noisy-debug",
+            Cap::NoisySerde => "noisy-serde",
+            Cap::NoisySval => "noisy-sval",
         }
     }
 }
@@ -94,6 +108,7 @@ pub struct ModelEvent {
 
 pub enum Store {
     None,
+    Noisy(NoisyVal),
     Owned(OwnedValue),
     Level(emit::Level),
     Trace(emit::TraceId),
@@ -124,6 +139,11 @@ impl Prop {
 
     pub fn value<'a>(&'a self, store: &'a Store) -> Value<'a> {
         match (self.cap, store) {
+            (Cap::NoisyDisplay, Store::Noisy(nv)) => Value::from_display(nv),
+            (Cap::NoisyDebug, Store::Noisy(nv)) => Value::from_debug(nv),
+            (Cap::NoisySerde, Store::Noisy(nv)) => Value::from_serde(nv),
+            (Cap::NoisySval, Store::Noisy(nv)) => Value::from_sval(nv),
+            (_, Store::Noisy(_)) => Value::null(),
             (_, Store::Owned(o)) => o.by_ref(),
             (_, Store::Level(l)) => Value::from_any(l),
             (_, Store::Trace(t)) => Value::from_any(t),
@@ -163,13 +183,15 @@ impl Prop {
 
     /// Does the capture path keep the value's structure (as opposed to its text)?
     pub fn structural(&self) -> bool {
-        !matches!(self.cap, Cap::Display | Cap::Debug)
+        !matches!(self.cap, Cap::Display | Cap::Debug | Cap::NoisyDisplay | Cap::NoisyDebug)
     }
 
     /// The text a text-only capture path carries.
     pub fn text(&self) -> String {
-        match self.cap {
-            Cap::Debug => format!("{:?}", self.model),
+        match (self.cap, &self.model) {
+            (Cap::NoisyDisplay, M::I64(n)) => format!("noisy{}", n),
+            (Cap::NoisyDebug, M::I64(n)) => format!("Noisy({})", n),
+            (Cap::Debug, _) => format!("{:?}", self.model),
             _ => self.model.to_string(),
         }
     }
@@ -204,6 +226,8 @@ impl Prop {
             (M::Str(s), Cap::Typed | Cap::Display) if s.chars().all(|c| c.is_ascii_alphanumeric() || c == ' ' || c == '-') => Some(s.clone()),
             (m, Cap::Typed | Cap::Display) if m.as_int().is_some() => m.int_text(),
             (M::Bool(b), Cap::Typed | Cap::Display) => Some(b.to_string()),
+            (M::I64(n), Cap::NoisyDisplay) => Some(format!("noisy{}", n)),
+            (M::I64(n), Cap::NoisySval) => Some(n.to_string()),
             _ => None,
         }
     }
@@ -368,9 +392,23 @@ impl ModelEvent {
         self.with_frames(ctxt, depth + 1, f)
     }
 
+    fn store_for(&self, p: &Prop) -> Store {
+        match (&p.model, p.cap.is_noisy()) {
+            (M::I64(n), true) => Store::Noisy(NoisyVal {
+                n: *n,
+                mode: p.cap,
+                depth: 1 + (*n & 1) as u8,
+                outer_vid: self.vid.clone(),
+                ambient: self.ambient.clone(),
+                base: self.clock.or(self.extent.map(|e| e.1)).unwrap_or(BASE_NANOS),
+            }),
+            _ => p.store(),
+        }
+    }
+
     /// Build the real event and hand it to `f`.
     pub fn with_event<R>(&self, f: impl FnOnce(&emit::Event<&[(emit::Str, Value)]>) -> R) -> R {
-        let stores: Vec<Store> = self.props.iter().map(|p| p.store()).collect();
+        let stores: Vec<Store> = self.props.iter().map(|p| self.store_for(p)).collect();
         let props: Vec<(emit::Str, Value)> = self.props.iter().zip(&stores).map(|(p, s)| (emit::Str::new_ref(&p.key), p.value(s))).collect();
         let parts: Vec<emit::template::Part> =
             self.parts.iter().map(|(hole, t)| if *hole { emit::template::Part::hole_ref(t) } else { emit::template::Part::text_ref(t) }).collect();
@@ -879,6 +917,9 @@ pub fn gen_rt_event(g: &mut Rng, seed: u64, section: &str, idx: u64) -> ModelEve
     let mut me = gen_event(g, seed, section, idx, false);
     me.ambient = gen_ambient(g, &me.props);
     me.clock = Some(BASE_NANOS + 500_000_000_000 + idx * 1_000_003);
+    if g.bool() {
+        add_noisy(g, &mut me);
+    }
     me
 }
 
@@ -941,4 +982,137 @@ pub fn gen_wild_event(g: &mut Rng, seed: u64, section: &str, idx: u64) -> ModelE
     let mut it = keep.into_iter();
     me.parts.retain(|_| it.next().unwrap());
     me
+}
+
+// ---------------------------------------------------------------------------
+// re-entrant ("instrumented") values
+// ---------------------------------------------------------------------------
+
+thread_local! {
+    static REENTER: std::cell::Cell<Option<*const (dyn Fn(&ModelEvent) + 'static)>> = const { std::cell::Cell::new(None) };
+    static INNER_LOG: std::cell::RefCell<Vec<ModelEvent>> = const { std::cell::RefCell::new(Vec::new()) };
+    static INNER_SEQ: std::cell::Cell<u64> = const { std::cell::Cell::new(0) };
+}
+
+/// While `body` runs on this thread, noisy values emit their inner events through `f`.
+pub fn with_reenter<R>(f: &dyn Fn(&ModelEvent), body: impl FnOnce() -> R) -> R {
+    struct Reset(Option<*const (dyn Fn(&ModelEvent) + 'static)>);
+    impl Drop for Reset {
+        fn drop(&mut self) {
+            REENTER.with(|r| r.set(self.0));
+        }
+    }
+    // SAFETY: the pointer is only dereferenced while `body` runs (the guard clears it on the way
+    // out, also when unwinding), and `f` outlives `body`
+    let ptr: *const (dyn Fn(&ModelEvent) + 'static) = unsafe { std::mem::transmute(f as *const dyn Fn(&ModelEvent)) };
+    let _reset = Reset(REENTER.with(|r| r.replace(Some(ptr))));
+    INNER_SEQ.with(|s| s.set(0));
+    body()
+}
+
+/// The inner events noisy values emitted on this thread since the last call, in completion order.
+pub fn take_inner_log() -> Vec<ModelEvent> {
+    INNER_LOG.with(|l| std::mem::take(&mut *l.borrow_mut()))
+}
+
+/// A value whose `Display` / `Debug` / `Serialize` / `sval::Value` impl emits an event through the
+/// runtime it is being encoded for. As data it is the integer `n` (structured modes) or a short text.
+pub struct NoisyVal {
+    pub n: i64,
+    pub mode: Cap,
+    /// remaining nesting: 2 = the inner event carries a noisy value too
+    pub depth: u8,
+    pub outer_vid: String,
+    pub ambient: Vec<Vec<Prop>>,
+    pub base: u64,
+}
+
+impl NoisyVal {
+    /// The model of the `k`th inner event this value emits.
+    fn inner_model(&self, k: u64) -> ModelEvent {
+        let vid = format!("{}-in{}", self.outer_vid, k);
+        let mut props = vec![Prop::new("vid", M::Str(vid.clone()), Cap::Typed), Prop::new("n", M::I64(self.n), Cap::Typed)];
+        if self.depth > 1 {
+            // an even payload: the nested value's own inner event is plain
+            props.push(Prop::new("noisy_inner", M::I64(self.n.wrapping_mul(2)), self.mode));
+        }
+        let mut parts = vec![(true, "vid".to_string()), (false, " formatting ".to_string()), (true, "n".to_string())];
+        if self.depth > 1 && matches!(self.mode, Cap::NoisyDisplay | Cap::NoisySval) {
+            // rendered messages (the terminal writer encodes nothing else) nest too
+            parts.push((false, " via ".into()));
+            parts.push((true, "noisy_inner".into()));
+        }
+        ModelEvent {
+            vid,
+            mdl: "c13::inner".into(),
+            parts,
+            extent: Some((None, self.base.wrapping_add(k + 1))),
+            props,
+            kind: Kind::Log,
+            directed: None,
+            // the outer event's frames are still active while its values are encoded
+            ambient: self.ambient.clone(),
+            clock: None,
+            wild: None,
+            macro_site: None,
+        }
+    }
+
+    fn reenter(&self) {
+        let f = match REENTER.with(|r| r.get()) {
+            Some(f) => f,
+            None => return,
+        };
+        let k = INNER_SEQ.with(|s| {
+            let k = s.get();
+            s.set(k + 1);
+            k
+        });
+        let inner = self.inner_model(k);
+        // SAFETY: see `with_reenter`
+        unsafe { (*f)(&inner) };
+        INNER_LOG.with(|l| l.borrow_mut().push(inner));
+    }
+}
+
+impl std::fmt::Display for NoisyVal {
+    fn fmt(&self, f: &mut std::fmt::Formatter) -> std::fmt::Result {
+        self.reenter();
+        write!(f, "noisy{}", self.n)
+    }
+}
+
+impl std::fmt::Debug for NoisyVal {
+    fn fmt(&self, f: &mut std::fmt::Formatter) -> std::fmt::Result {
+        self.reenter();
+        write!(f, "Noisy({})", self.n)
+    }
+}
+
+impl serde::Serialize for NoisyVal {
+    fn serialize<S: serde::Serializer>(&self, s: S) -> Result<S::Ok, S::Error> {
+        self.reenter();
+        s.serialize_i64(self.n)
+    }
+}
+
+impl sval::Value for NoisyVal {
+    fn stream<'sval, S: sval::Stream<'sval> + ?Sized>(&'sval self, stream: &mut S) -> sval::Result {
+        self.reenter();
+        stream.i64(self.n)
+    }
+}
+
+/// Give an event of the runtime section a re-entrant property (and sometimes a hole bound to it).
+pub fn add_noisy(g: &mut Rng, me: &mut ModelEvent) {
+    let mode = *g.pick(&[Cap::NoisyDisplay, Cap::NoisyDebug, Cap::NoisySerde, Cap::NoisySval]);
+    let n = g.irange(-1000, 1000);
+    if me.props.iter().any(|p| p.key == "noisy") {
+        return;
+    }
+    me.props.push(Prop::new("noisy", M::I64(n), mode));
+    if matches!(mode, Cap::NoisyDisplay | Cap::NoisySval) && g.bool() {
+        me.parts.push((false, " saw ".into()));
+        me.parts.push((true, "noisy".into()));
+    }
 }
